@@ -311,7 +311,7 @@ for _f in sorted(glob.glob(os.path.join(os.path.dirname(os.path.abspath(__file__
 # C03: traversal lists vs edge store (oracle independent of the Coq model)
 # ------------------------------------------------------------------------------------------
 class C03Prop(HistProp):
-    internal_kinds = {1010, 1011, 1012, 1013, 1014, 1015, 1017, 1018}
+    internal_kinds = {1010, 1011, 1012, 1013, 1014, 1015, 1017, 1018}   # 1016/1019 (traversal lists) are C03's observables
 
     def oracle(self, c, o):
         """after every call: successors_vec / predecessors_vec (hook snapshot) must equal the
@@ -327,14 +327,14 @@ class C03Prop(HistProp):
                 nodes = [r[0] for r in rows]
             elif kind == 1003:
                 edges = rows
-            elif kind in (16, 19) and nodes is not None and edges is not None:
+            elif kind in (16, 19, 1016, 1019) and nodes is not None and edges is not None:
                 idx = {x: i for i, x in enumerate(nodes)}
                 exp = {}
                 for e in edges:
                     u, v, wf, w = e[0], e[1], e[2], e[3]
                     wt = None if wf == 0 else w
                     pairs = []
-                    if kind == 16:
+                    if kind in (16, 1016):
                         pairs.append((idx[u], idx[v]))
                         if not directed and u != v:
                             pairs.append((idx[v], idx[u]))
@@ -357,11 +357,11 @@ class C03Prop(HistProp):
                     got[p] = None if r[2] == 0 else r[3]
                 if dup:
                     msgs.append("after call %d: duplicate traversal entry in %s" % (
-                        step, "successors_vec" if kind == 16 else "predecessors_vec"))
+                        step, "successors_vec" if kind in (16, 1016) else "predecessors_vec"))
                 if got != exp:
                     bad = sorted(set(got.items()) ^ set(exp.items()), key=str)[:4]
                     msgs.append("after call %d: %s disagrees with the edge store (index pair, weight): %s" % (
-                        step, "successors_vec" if kind == 16 else "predecessors_vec", bad))
+                        step, "successors_vec" if kind in (16, 1016) else "predecessors_vec", bad))
                 if len([r for r in rows if r[1] == -1]) != len(nodes):
                     msgs.append("after call %d: traversal list has %d rows for %d nodes" % (
                         step, len([r for r in rows if r[1] == -1]), len(nodes)))
@@ -685,10 +685,15 @@ C09.manifest = {
     "text": "Proved (unbounded, every reachable state): number_of_edges = size(false) = number of stored edges; "
             "get_node_degree = #edges leaving + #edges entering (a self-loop adds two), in/out degree = those counts on "
             "directed graphs, hence degree = in + out; handshake: degrees sum to 2m, in- and out-degrees each sum to m "
-            "(count_partition over the duplicate-free node list). Weighted degrees, density, degree_centrality and the "
-            "adjacency matrix are modelled (exact arithmetic), compared per case, and checked by the identity oracle.",
-    "note": "Axioms: none. Partial: weighted handshake, density/centrality scaling and matrix entries are validated per "
-            "generated history (model + identity oracle), not proved. Defects F2, F3, F4 repaired by fix: commits.",
+            "(count_partition over the duplicate-free node list); the weighted degree functions and the weighted "
+            "handshake (sum = 2 x size(true)), density and degree_centrality as functions of (n, m); "
+            "get_sparse_adjacency_matrix (single-edge graphs): a triplet (i,j,w) is emitted iff an edge is stored "
+            "between the i-th and the j-th node (either orientation when undirected), w = its weight (1.0 when "
+            "unweighted), and the matrix is symmetric when undirected (C09_matrix, C09_matrix_symmetric; needs the "
+            "WF clause wf_emkeys: the edge store has duplicate-free keys, proved for every reachable state).",
+    "note": "Axioms: none. Not proved: float rounding of the weighted sums (modelled exactly; the implementation sums "
+            "sorted so that the order cannot matter, compared at 1e-9); that each matrix triplet is emitted exactly once "
+            "(compared per case). Defects F2, F3, F4 repaired by fix: commits.",
     "technique": "Coq proof: counting lemmas over the edge multiset under WF + correspondence + identity oracle",
 }
 
